@@ -3,7 +3,7 @@ import itertools
 from .. import core, extract
 from ..core import Suite, onat, b01, ohx, hx
 
-LEAN_TARGETS = ['Uds.Props.C08', 'Uds.Props.C08Call', 'Uds.Tie.CallGraph']
+LEAN_TARGETS = ['Uds.Props.C08', 'Uds.Props.C08Call', 'Uds.Props.C08Hist', 'Uds.Tie.CallGraph']
 ASSUMPTIONS = [
     'the inner outcome (what the undecorated method body raises/returns) is taken from the real client with all switches on; '
     'the model covers the decorator and the composite helpers; the bodies are modelled under C03/C04',
@@ -221,4 +221,10 @@ def suite_callw(ctx):
     return callw.suite_callw(ctx, 'C08')
 
 
-SUITES = [suite_call, suite_callw, suite_reentrant, suite_blocks, suite_two_clients]
+def suite_hist(ctx):
+    """whole histories against the model's hrun, read for this property (harness/histsw.py)"""
+    from .. import histsw
+    return histsw.suite_hist(ctx, 'C08')
+
+
+SUITES = [suite_call, suite_callw, suite_reentrant, suite_blocks, suite_two_clients, suite_hist]
